@@ -367,6 +367,10 @@ BODY_PAIRS = [
     ("stft + istft", lambda: (_bb(9), _bb(10)), lambda z: np.asarray(pb.contrib.istft(pb.contrib.stft(z, nperseg=4), nperseg=4).data)),
     ("real_to_complex x2", lambda: (np.arange(24.0).reshape(12, 2), np.cos(np.arange(30.0)).reshape(10, 3)),
      lambda a: pb.utils.real_to_complex(a, axis=0)),
+    ("real_to_complex x2 same shape", lambda: (np.arange(24.0).reshape(12, 2), np.cos(np.arange(24.0)).reshape(12, 2)),
+     lambda a: pb.utils.real_to_complex(a, axis=0)),
+    ("time_shift x2 same shape", lambda: (_bb(11), _bb(12)), lambda z: np.asarray(pb.time_shift(z, 1.25).data)),
+    ("freq_shift x2 same shape", lambda: (_bb(13), _bb(14)), lambda z: np.asarray(pb.freq_shift(z, z.sample_rate / 8).data)),
 ]
 
 
